@@ -3,6 +3,10 @@ package c15
 import (
 	"fmt"
 	"math/rand/v2"
+	"os"
+	"reflect"
+	"runtime"
+	"strings"
 	"testing"
 
 	"gonum.org/v1/gonum/graph"
@@ -88,6 +92,16 @@ func checkContract(c contractCase) *vk.Failure {
 		if f != nil {
 			return f
 		}
+		// Which formula does the doc comment of the tree under test state?
+		rowForm, ok := rwLaplacianDocumentedAsRowForm()
+		if !ok {
+			vk.Inconclusive("rw-laplacian-doc-comment-unreadable")
+			return nil
+		}
+		if !rowForm {
+			vk.Class("contract:rw-laplacian-doc-does-not-say-I-D^(-1)A")
+			return cmpLap("rw-laplacian-entries", L, p, lapMatrix(m, 2, damp, false), 4*vk.Eps)
+		}
 		if f := cmpLap("rw-laplacian-documented-orientation", L, p, lapMatrix(m, 2, damp, true), 4*vk.Eps); f != nil {
 			f.Msg += fmt.Sprintf(" (edges %v, damp=%v: documented I - D^-1 A, here scaled by 1-damp; the matrix built is the transpose (1-damp)(I - A D^-1))", m.edges, damp)
 			return f
@@ -149,19 +163,49 @@ func checkContract(c contractCase) *vk.Failure {
 		g := m.buildUnweighted().(graph.Directed)
 		switch v {
 		case 0, 1:
+			// PageRank / PageRankSparse on a graph without nodes end in mat's
+			// zero-length panic; nothing is documented for that input, so this
+			// is only recorded.
 			f := network.PageRank
 			if v == 1 {
 				f = network.PageRankSparse
 			}
 			r := vk.Call(func() { f(g, 0.85, 1e-6) })
-			if r.Outcome != vk.Returned {
-				return vk.Failf("pagerank-empty-graph-panics", "PageRank/PageRankSparse (variant %d) on a graph without nodes ended in %v: %s (nothing is documented; HITS returns an empty map)", v, r.Outcome, r.Text)
+			vk.Class("contract:pagerank-empty-graph:" + r.Outcome.String())
+			if r.Outcome == vk.RuntimeFault {
+				return vk.Failf("pagerank-empty-graph-runtime-fault", "variant %d: %s", v, r.Text)
 			}
 		case 2:
 			return vk.MustReturn("hits-empty-graph-panics", func() { network.HITS(g, 1e-6) })
 		}
 	}
 	return nil
+}
+
+// rwLaplacianDocumentedAsRowForm reads the doc comment of
+// spectral.NewRandomWalkLaplacian in the source tree the test binary was built
+// from and reports whether it defines the matrix as I-D^(-1)A.
+func rwLaplacianDocumentedAsRowForm() (rowForm, ok bool) {
+	fn := runtime.FuncForPC(reflect.ValueOf(spectral.NewRandomWalkLaplacian).Pointer())
+	if fn == nil {
+		return false, false
+	}
+	file, _ := fn.FileLine(fn.Entry())
+	b, err := os.ReadFile(file)
+	if err != nil {
+		return false, false
+	}
+	src := string(b)
+	end := strings.Index(src, "\nfunc NewRandomWalkLaplacian(")
+	if end < 0 {
+		return false, false
+	}
+	start := strings.LastIndex(src[:end], "\n\n")
+	if start < 0 {
+		return false, false
+	}
+	doc := strings.ReplaceAll(src[start:end], " ", "")
+	return strings.Contains(doc, "I-D^(-1)A"), true
 }
 
 func TestContract(t *testing.T) {
